@@ -53,6 +53,16 @@ RULE = (
     "empty / super+text / in the mid template, rendered additionally with "
     "suppress_blank_control_flow_blocks=False (sync/async x DictLoader/CachingDictLoader; "
     "also every 32nd case of the other families); "
+    "cont = a block (and hidden duplicates / a hidden second extends) inside capture "
+    "(printed 0/1/2 times, nested, inside if/for/with), macro body (called 0/1/2 times), "
+    "with, {% liquid %} line form, comment, {# #} comment and raw, placed in root / mid / "
+    "leaf, overridden with text or block.super (model: blocks anywhere in executable markup "
+    "participate, inside comment/raw they are text); rel = metamorphic: seeded roots whose "
+    "blocks use cycle, increment/decrement, macros defined/called inside and outside "
+    "blocks, offset: continue, capture, assign, loop variables, inside for loops / if / "
+    "capture, nested - rendered directly (4 modes) must equal the render through 1..3 "
+    "descendants that override nothing (p1-p3) and through descendants overriding with "
+    "{{ block.super }} only (s1-s4), sync/async, both loaders; "
     "data d = <D&\"'> are added for ALL ctl cases, every 4th case that uses block.super "
     "and every 16th case (block bodies always contain literal < and >); samp = seeded random chains of depth 2..8 (mostly <= 4) over 3 names with "
     "random nesting, if/for wrappers, block.super once/twice, variable reads.  "
@@ -106,6 +116,12 @@ ASSUMPTIONS = [
     "whitespace, so in the blank family the default-configuration modes are compared "
     "with all whitespace removed from both sides (non-whitespace output of the "
     "most-derived override must survive, which is what the property speaks about)",
+    "calling a macro whose body contains a block is forbidden by the engine "
+    "(DisabledTagError) and not spoken about by the statement: not judged "
+    "(dont_care_block_in_called_macro); the block still counts as a definition of its "
+    "template (duplicates)",
+    "the relation family has no reference model: the direct render of the root is the "
+    "reference; variables assigned inside a block are never read after it (block scope)",
     "a history step is judged against the model's answer for that entry alone (renders "
     "are independent); str(template) of a cached template must equal str of a fresh parse",
 ]
@@ -209,7 +225,7 @@ def _walk_ctx(items: list, encl: str | None = None, infor: bool = False) -> Iter
         k = it[0]
         if k == "b":
             yield from _walk_ctx(it[3], it[1], infor)
-        elif k == "if":
+        elif k in ("if", "cap", "mac"):
             yield from _walk_ctx(it[2], encl, infor)
         elif k in M.BODY3:
             yield from _walk_ctx(it[3], encl, k in ("for", "forin") or infor)
@@ -378,6 +394,8 @@ class Runner:
                 return None
             return f"unexpected-{A[1]}"
         kind = E.err
+        if kind == "block-in-called-macro":
+            return None  # not judged (see ASSUMPTIONS); it terminated
         if kind == "recursive-nesting":
             # no finite meaning; the engine only has to stop with a Liquid error
             return "recursive-nesting-no-error" if A[0] == "out" else None
@@ -500,7 +518,8 @@ class Runner:
         self.case_no += 1
         n = self.case_no
         uses_super = any(it[0] == "s" for items in prog.values() for it, _ in M.walk(items))
-        self.esc_cur = family == "ctl" or n % 16 == 0 or (uses_super and n % 4 == 0)
+        self.esc_cur = (family == "ctl" or n % 16 == 0 or (uses_super and n % 4 == 0)) and (
+            family != "cont")
         self.nosup_cur = family == "blank" or n % 32 == 0
         self.ws_cur = family == "blank"
         self.what_prefix = ""
@@ -540,6 +559,9 @@ class Runner:
         if E.kind == "err":
             if E.err in ("missing", "model-budget"):
                 ctx.note(f"generator produced an ill-formed case ({E.err}) in {family}")
+                return None
+            if E.err == "block-in-called-macro":
+                ctx.count("dont_care_block_in_called_macro")
                 return None
             if E.err == "recursive-nesting":
                 ctx.count("invalid_recursive_nesting")
@@ -600,6 +622,156 @@ class Runner:
             "observed": {m: list(a) for m, a in wobs.items()},
         })
         return key
+
+    # -- relation: direct == through descendants that change nothing ---------------
+    def _rel_still(self, root: dict, which: str) -> bool:
+        """Cheap re-check used while shrinking: does observation *which* still differ
+        from the direct render?"""
+        src = rel_source(root)
+        e1 = self.Environment(loader=self.DictLoader({"leaf": src}))
+        ref = self._one(e1, "leaf", DATA, False)
+        if ref[0] != "out":
+            return False
+        name, mode = which.split("/")
+        if name == "direct":
+            cls_ = self.CachingDictLoader if "cache" in mode else self.DictLoader
+            env = self.Environment(loader=cls_({"leaf": src}))
+        else:
+            tpls = rel_variants(root)[name]
+            cls_ = self.CachingDictLoader if "cache" in mode else self.DictLoader
+            env = self.Environment(loader=cls_(dict(tpls)))
+        return self._one(env, "leaf", DATA, "async" in mode) != ref
+
+    def _rel_eval(self, root: dict) -> tuple[str | None, dict]:
+        src = rel_source(root)
+        obs: dict[str, tuple] = {}
+        e1 = self.Environment(loader=self.DictLoader({"leaf": src}))
+        e2 = self.Environment(loader=self.CachingDictLoader({"leaf": src}))
+        obs["direct/sync"] = self._one(e1, "leaf", DATA, False)
+        ref = obs["direct/sync"]
+        if ref[0] != "out":
+            return "root-error", obs
+        obs["direct/async"] = self._one(e1, "leaf", DATA, True)
+        obs["direct/sync+cache"] = self._one(e2, "leaf", DATA, False)
+        obs["direct/async+cache"] = self._one(e2, "leaf", DATA, True)
+        for name, tpls in rel_variants(root).items():
+            env = self.Environment(loader=self.DictLoader(dict(tpls)))
+            obs[f"{name}/sync"] = self._one(env, "leaf", DATA, False)
+            obs[f"{name}/async"] = self._one(env, "leaf", DATA, True)
+            if name in ("p3", "s2"):
+                envc = self.Environment(loader=self.CachingDictLoader(dict(tpls)))
+                obs[f"{name}/async+cache"] = self._one(envc, "leaf", DATA, True)
+                obs[f"{name}/sync+cache"] = self._one(envc, "leaf", DATA, False)
+        bad = [k for k, a in obs.items() if a != ref]
+        if not bad:
+            return None, obs
+        if any(k.startswith("direct/") for k in bad):
+            cls = "direct-modes-disagree"
+        elif any(k.startswith("p") for k in bad):
+            cls = "direct-vs-passthrough-chain"
+        else:
+            cls = "direct-vs-super-only-chain"
+        if any(a[0] == "budget" for a in obs.values()):
+            cls += ":no-termination-within-step-budget"
+        elif all("async" in k for k in bad):
+            cls += "@async"
+        elif not any("async" in k for k in bad):
+            cls += "@sync"
+        return cls, obs
+
+    def relation(self, root: dict) -> str | None:
+        ctx = self.ctx
+        cls, obs = self._rel_eval(root)
+        ctx.ev(len(obs))
+        if cls == "root-error":
+            ctx.count("rel_root_errors")
+            return None
+        src = rel_source(root)
+        ctx.count("rel_roots")
+        ctx.count("rel_comparisons", len(obs) - 1)
+        ctx.nt("rel", src)
+        for f in REL_FEATURES:
+            if f in src:
+                ctx.seen("rel_features", f)
+        if "{% for i in (1..3) %}{% block" in src:
+            ctx.count("rel_roots_block_in_loop")
+        if cls is None:
+            return None
+        keys = self.minimised.setdefault("rel", [])
+        wroot, wobs = root, obs
+        if len(keys) < 30:
+            first_bad = next(k for k, a in obs.items() if a != obs["direct/sync"])
+            small = self._rel_minimise(root, first_bad)
+            c2, o2 = self._rel_eval(small)
+            if c2 == cls:
+                wroot, wobs = small, o2
+            msrc = rel_source(wroot)
+            feats = [f.replace("{% ", "").replace(": ", "-") for f in REL_FEATURES if f in msrc]
+            if "break" in feats or "continue" in feats:
+                feats = ["loop-interrupt"]  # output written before break/continue is lost
+            elif "parentloop" in feats:
+                feats = ["parentloop"]
+            key = f"relation:{cls}:{'+'.join(feats) or 'plain'}"
+            keys.append(key)
+        else:
+            key = f"relation:{cls}:unminimised"
+        ref = wobs["direct/sync"]
+        diff = {k: a for k, a in wobs.items() if a != ref}
+        descr = f"direct render {ref[:2]!r}; differing: " + "; ".join(
+            f"{k}={a[:2]!r}" for k, a in list(diff.items())[:4])
+        vs = rel_variants(wroot)
+        k0 = next(iter(diff)).split("/")[0]
+        ctx.violation(key, descr[:700], {
+            "family": "rel", "root": wroot, "root_source": rel_source(wroot),
+            "first_differing_variant": vs.get(k0, {}), "observed": {k: list(a) for k, a in wobs.items()},
+        })
+        return key
+
+    def _rel_minimise(self, root: dict, which: str, max_tests: int = 70) -> dict:
+        tests = 0
+
+        def cands(rt: dict) -> Iterator[dict]:
+            for i in range(len(rt["elems"])):
+                c = copy.deepcopy(rt)
+                del c["elems"][i]
+                yield c
+            for i in range(len(rt["pre"])):
+                c = copy.deepcopy(rt)
+                del c["pre"][i]
+                yield c
+            for i, el in enumerate(rt["elems"]):
+                if el["k"] != "b":
+                    continue
+                if el.get("inner"):
+                    c = copy.deepcopy(rt)
+                    c["elems"][i]["inner"] = None
+                    yield c
+                    for j in range(len(el["inner"]["body"])):
+                        c = copy.deepcopy(rt)
+                        del c["elems"][i]["inner"]["body"][j]
+                        yield c
+                if el["wrap"] != "none":
+                    c = copy.deepcopy(rt)
+                    c["elems"][i]["wrap"] = "none"
+                    yield c
+                for j in range(len(el["body"])):
+                    c = copy.deepcopy(rt)
+                    del c["elems"][i]["body"][j]
+                    yield c
+
+        cur = root
+        progress = True
+        while progress and tests < max_tests:
+            progress = False
+            for c in cands(cur):
+                if tests >= max_tests:
+                    break
+                tests += 1
+                if self._rel_still(c, which):
+                    cur = c
+                    progress = True
+                    break
+        return cur
 
     # -- histories -----------------------------------------------------------------
     def _run_history(self, loader_cls: Any, sources: dict[str, str], steps: list, data: dict) -> list[tuple]:
@@ -1406,6 +1578,215 @@ def _fam_blank(r: Runner, spec: dict, ctx: Ctx) -> None:
 
 
 # ---------------------------------------------------------------------------
+# blocks / extends inside container tags whose node is "blank" or otherwise special
+# ---------------------------------------------------------------------------
+
+CONTAINERS = ("cap0", "cap1", "cap2", "cap-nested", "cap-in-if", "cap-in-for", "mac0", "mac1",
+              "mac2", "with", "liquid", "comment", "hash-comment", "raw", "cap-in-with")
+CONT_PLACES = ("root-top", "root-outer-block", "mid-override", "leaf-override")
+CONT_OVERRIDES = ("none", "leaf-text", "leaf-super", "mid-super+leaf-super")
+CONT_HIDDEN = ("none", "dup", "extends2")
+INERT = ("comment", "hash-comment", "raw")  # markup inside is not template markup
+
+
+def _contain(inner: list, kind: str) -> list:
+    pr = [["t", "["], ["v", "t"], ["t", "]"]]
+    if kind == "cap0":
+        return [["cap", "t", inner]]
+    if kind == "cap1":
+        return [["cap", "t", inner], *pr]
+    if kind == "cap2":
+        return [["cap", "t", inner], *pr, *copy.deepcopy(pr)]
+    if kind == "cap-nested":
+        return [["cap", "t", [["cap", "u", inner], ["t", "("], ["v", "u"], ["t", ")"]]], *pr]
+    if kind == "cap-in-if":
+        return [["if", "yes", [["cap", "t", inner], *pr]]]
+    if kind == "cap-in-for":
+        return [["for", "i", 2, [["cap", "t", inner], *pr]]]
+    if kind == "cap-in-with":
+        return [["with", "q", "d", [["cap", "t", inner], *pr]]]
+    if kind.startswith("mac"):
+        return [["mac", "m", inner], *[["call", "m"] for _ in range(int(kind[3]))]]
+    if kind == "with":
+        return [["with", "q", "d", inner]]
+    if kind == "liquid":
+        return [[*it, "liquid"] if it[0] == "b" else it for it in inner]
+    if kind == "comment":
+        return [["com", inner]]
+    if kind == "hash-comment":
+        return [["hcom", inner]]
+    return [["raw", inner]]
+
+
+def cont_cases() -> Iterator[tuple[dict, str, str]]:
+    for ck in CONTAINERS:
+        for place in CONT_PLACES:
+            for ov in CONT_OVERRIDES:
+                for hid in CONT_HIDDEN:
+                    tagx = "x0" if place.startswith("root") else ("x1" if place.startswith("mid") else "x2")
+                    xdef = ["b", "x", False, [["t", f"<{tagx}>"]], None]
+                    inner: list = [xdef]
+                    if hid == "extends2":
+                        if place.startswith("root") or ck == "liquid":
+                            continue
+                        inner = [["x", "t0"], xdef] if ck not in INERT else [["x", "nowhere"], xdef]
+                    cont = _contain(inner, ck)
+                    if hid == "dup":
+                        cont = [*cont, ["b", "x", False, [["t", "<dup>"]], None]]
+                    t1: list = [["x", "t0"], ["t", "~1~"]]
+                    t2: list = [["x", "t1"], ["t", "~2~"]]
+                    if place == "root-top":
+                        t0 = [["t", "R("], *cont, ["t", ")R"]]
+                    elif place == "root-outer-block":
+                        t0 = [["t", "R("], ["b", "o", False, cont, None], ["t", ")R"]]
+                    else:
+                        t0 = [["t", "R("], ["b", "o", False, [["t", "<o0>"]], None], ["t", ")R"]]
+                        (t1 if place == "mid-override" else t2).append(["b", "o", False, cont, None])
+                    if place == "leaf-override" and ov != "none":
+                        continue
+                    if place == "mid-override" and ov == "mid-super+leaf-super":
+                        continue
+                    if hid == "dup" and ov != "none" and place == "mid-override":
+                        pass
+                    if ov == "leaf-text":
+                        t2.append(["b", "x", False, [["t", "<X2>"]], None])
+                    elif ov == "leaf-super":
+                        t2.append(["b", "x", False, [["t", "<X2:"], ["s"], ["t", ">"]], None])
+                    elif ov == "mid-super+leaf-super":
+                        t1.append(["b", "x", False, [["t", "<X1:"], ["s"], ["t", ">"]], None])
+                        t2.append(["b", "x", False, [["t", "<X2:"], ["s"], ["t", ">"]], None])
+                    yield {"t0": t0, "t1": t1, "t2": t2}, "t2", f"{ck}/{place}/{ov}/{hid}"
+
+
+def _fam_cont(r: Runner, spec: dict, ctx: Ctx) -> None:
+    last = None
+    for idx, (prog, entry, label) in enumerate(cont_cases()):
+        if idx % spec["n"] != spec["i"]:
+            continue
+        r.case("cont", prog, entry)
+        parts = label.split("/")
+        ctx.seen("containers", parts[0])
+        if parts[3] != "none":
+            ctx.count("cont_hidden_defects")
+        if parts[2].endswith("super") and parts[0] not in INERT:
+            ctx.count("cont_super_through_container")
+        last = (prog, entry, label)
+    if last:
+        ctx.sample({"family": "cont", "label": last[2], "sources": M.emit(last[0]), "entry": last[1],
+                    "expected": M.expected(last[0], last[1], DATA).sig()})
+
+
+# ---------------------------------------------------------------------------
+# relation: a root rendered directly == rendered through descendants that change nothing
+# ---------------------------------------------------------------------------
+
+REL_BODY = [
+    "{% cycle 'x','y' %}", "{% cycle 'x','y' %}", "{% cycle g: 'p','q','r' %}",
+    "{% increment n %}", "{% increment n %}", "{% decrement k %}",
+    "{% call m %}", "{% call m %}", "{% macro mi %}<mi{{ d }}>{% endmacro %}{% call mi %}",
+    "{% for j in (1..6) limit: 2 offset: continue %}{{ j }}{% endfor %}",
+    "{% capture c %}c{{ d }}{% increment n %}{% endcapture %}{{ c }}{{ c }}",
+    "{% assign w = 'W' %}{{ w }}", "{{ v }}", "{{ i }}", "{{ forloop.index }}",
+    "{% liquid\nassign z = 3\necho z\n%}", "{% case d %}{% when 'D' %}y{% else %}n{% endcase %}",
+    "{% with q: d %}{{ q }}{% endwith %}", "t", "{{ n }}",
+    "{% for j in (1..2) %}{{ j }}{% cycle 'a','b','c' %}{% endfor %}",
+]
+REL_BODY_LOOP = ["{% if i == 2 %}{% continue %}{% endif %}", "{% if i == 3 %}{% break %}{% endif %}",
+                 "{{ forloop.first }}", "{% for j in (1..2) %}{{ forloop.parentloop.index }}{% endfor %}"]
+REL_OUT = [
+    "{% cycle 'x','y' %}", "{% cycle g: 'p','q','r' %}", "{% increment n %}", "{% decrement k %}",
+    "{% call m %}", "{% call mi %}", "{% for j in (1..6) limit: 2 offset: continue %}{{ j }}{% endfor %}",
+    "|", "{{ n }}", "{% for j in (1..6) limit: 1 %}{{ j }}{% endfor %}",
+]
+REL_FEATURES = ("parentloop", "cycle", "increment", "decrement", "call", "offset: continue",
+                "capture", "assign", "forloop", "{% continue", "{% break", "liquid")
+
+
+def rel_root(rng: random.Random) -> dict:
+    names = iter("abcefghklmopq")
+    elems: list[dict] = []
+    for _ in range(rng.randint(3, 6)):
+        if rng.random() < 0.4:
+            elems.append({"k": "f", "s": rng.choice(REL_OUT)})
+            continue
+        wrap = rng.choice(("none", "none", "for3", "for3", "if", "cap2"))
+        pool = REL_BODY + (["{{ forloop.first }}", "{{ forloop.index0 }}"] if wrap == "for3" else [])
+        el = {"k": "b", "name": next(names), "wrap": wrap,
+              "body": [rng.choice(pool) for _ in range(rng.randint(1, 4))], "inner": None}
+        if wrap == "for3" and rng.random() < 0.06:  # rare: loop interrupts / parentloop
+            el["body"].insert(rng.randint(0, len(el["body"])), rng.choice(REL_BODY_LOOP))
+        if rng.random() < 0.3:
+            el["inner"] = {"name": next(names),
+                           "body": [rng.choice(pool) for _ in range(rng.randint(1, 3))]}
+        elems.append(el)
+    return {"pre": ["{% macro m %}<m>{% endmacro %}", "{% assign v = 'V' %}"], "elems": elems}
+
+
+def rel_source(root: dict) -> str:
+    out = list(root["pre"])
+    for el in root["elems"]:
+        if el["k"] == "f":
+            out.append(el["s"])
+            continue
+        inner = ""
+        if el.get("inner"):
+            inner = "[{%% block %s %%}%s{%% endblock %%}]" % (el["inner"]["name"], "".join(el["inner"]["body"]))
+        b = "{%% block %s %%}%s%s{%% endblock %%}" % (el["name"], "".join(el["body"]), inner)
+        n = el["name"]
+        if el["wrap"] == "for3":
+            b = "{% for i in (1..3) %}" + b + "{% endfor %}"
+        elif el["wrap"] == "if":
+            b = "{% if yes %}" + b + "{% endif %}"
+        elif el["wrap"] == "cap2":
+            b = "{%% capture t_%s %%}%s{%% endcapture %%}<{{ t_%s }}|{{ t_%s }}>" % (n, b, n, n)
+        out.append(b)
+    return "".join(out)
+
+
+def rel_block_names(root: dict) -> list[str]:
+    ns = []
+    for el in root["elems"]:
+        if el["k"] == "b":
+            ns.append(el["name"])
+            if el.get("inner"):
+                ns.append(el["inner"]["name"])
+    return ns
+
+
+def rel_variants(root: dict) -> dict[str, dict[str, str]]:
+    """name -> templates; the entry is always 'leaf'.  p* override nothing, s* override
+    blocks with {{ block.super }} only."""
+    src = rel_source(root)
+    names = rel_block_names(root)
+    sup = lambda ns: "".join("{%% block %s %%}{{ block.super }}{%% endblock %%}" % n for n in ns)  # noqa: E731
+    return {
+        "p1": {"r": src, "leaf": "{% extends 'r' %}"},
+        "p2": {"r": src, "c1": "{% extends 'r' %}", "leaf": "{% extends 'c1' %}"},
+        "p3": {"r": src, "c1": "{% extends 'r' %}", "c2": "{% extends 'c1' %}~x~",
+               "leaf": "{% extends 'c2' %}"},
+        "s1": {"r": src, "leaf": "{% extends 'r' %}" + sup(names)},
+        "s2": {"r": src, "c1": "{% extends 'r' %}" + sup(names), "leaf": "{% extends 'c1' %}" + sup(names)},
+        "s3": {"r": src, "c1": "{% extends 'r' %}", "leaf": "{% extends 'c1' %}~y~" + sup(names)},
+        "s4": {"r": src, "c1": "{% extends 'r' %}" + sup(names[1::2]),
+               "leaf": "{% extends 'c1' %}" + sup(names[::2])},
+    }
+
+
+def _fam_rel(r: Runner, spec: dict, ctx: Ctx) -> None:
+    rng = random.Random(f"{spec['seed']}:rel:{spec['i']}")
+    last = None
+    for j in range(spec["count"]):
+        root = rel_root(rng)
+        r.relation(root)
+        last = root
+        if j % 128 == 0:
+            ctx.check_deadline()
+    if last:
+        ctx.sample({"family": "rel", "root": rel_source(last),
+                    "leaf_of_s2": rel_variants(last)["s2"]["leaf"]})
+
+
+# ---------------------------------------------------------------------------
 # histories: several renders of DIFFERENT entries on ONE environment
 # ---------------------------------------------------------------------------
 
@@ -1480,7 +1861,8 @@ def _fam_hist(r: Runner, spec: dict, ctx: Ctx) -> None:
 
 
 FAMILIES = {"exh": _fam_exh, "ctl": _fam_ctl, "struct": _fam_struct, "cyc": _fam_cyc,
-            "entry": _fam_entry, "samp": _fam_samp, "exh4": _fam_exh4, "hist": _fam_hist, "blank": _fam_blank}
+            "entry": _fam_entry, "samp": _fam_samp, "exh4": _fam_exh4, "hist": _fam_hist, "blank": _fam_blank,
+            "cont": _fam_cont, "rel": _fam_rel}
 
 # ---------------------------------------------------------------------------
 # framework interface
@@ -1511,6 +1893,10 @@ def shards(tier: str, seed: int) -> list[dict[str, Any]]:  # noqa: ARG001
         specs.append({"kind": "hist", "i": i, "n": n})
     for i in range(2):
         specs.append({"kind": "blank", "i": i, "n": 2})
+    specs.append({"kind": "cont", "i": 0, "n": 1})
+    n = 2 if q else 8
+    for i in range(n):
+        specs.append({"kind": "rel", "i": i, "n": n, "count": 350 if q else 6000})
     if not q:
         for i in range(32):
             specs.append({"kind": "exh4", "i": i, "n": 32})
@@ -1533,6 +1919,14 @@ def floors(tier: str) -> dict[str, int]:
         "cases_entry_after_chain": 800 if q else 8_000,
         "histories": 7_000 if q else 200_000,
         "cases_blank": 2_000,
+        "cases_cont": 400,
+        "cont_hidden_defects": 200,
+        "cont_super_through_container": 100,
+        "set:containers": 15,
+        "rel_roots": 600 if q else 40_000,
+        "rel_comparisons": 12_000 if q else 700_000,
+        "rel_roots_block_in_loop": 150,
+        "set:rel_features": 11,
         "blank_sole_content_overridden": 800,
         "set:blank_enclosures": 11,
         "set:blank_body_kinds": 6,
@@ -1579,6 +1973,19 @@ def run_shard(spec: dict[str, Any], ctx: Ctx) -> None:
 def replay(wit: dict[str, Any], ctx: Ctx) -> None:
     r = Runner(ctx)
     try:
+        if wit.get("family") == "rel":
+            root = wit["root"]
+            cls, obs = r._rel_eval(root)
+            print("replay C08: relation direct == pass-through / super-only descendants")
+            print(f"  root: {rel_source(root)}")
+            for name, tpls in rel_variants(root).items():
+                print(f"  {name}: " + " <- ".join(f"{k}={v!r}" for k, v in tpls.items() if k != "r"))
+            for k, a in obs.items():
+                print(f"  {k:20s}: {a!r}" + ("" if a == obs['direct/sync'] else "   <-- differs"))
+            print(f"  verdict: {cls or 'no violation'}")
+            if cls and cls != "root-error":
+                r.relation(root)
+            return
         if wit.get("family") == "hist":
             prog, steps, data = wit["prog"], [list(x) for x in wit["steps"]], wit.get("data") or DATA
             print(f"replay C08: history on one Environment, loader={wit.get('loader')}")
